@@ -781,6 +781,9 @@ def rand_take(rnd, fw, names, forwarding, nest_ok=True):
         fw["q"], fw["qop"], fw["qpos"] = rnd.sample(names, 2), rnd.choice(["pop", "get"]), "alias"
 
 
+_IF_USED = [False]   # reset by rand_program
+
+
 def rand_alt(rnd, fw, names):
     """(round 4) a second use of **kwargs in the else-branch of an if around the forwarding call"""
     if fw["qpos"] != "stmt" or rnd.random() >= 0.3:
@@ -789,7 +792,13 @@ def rand_alt(rnd, fw, names):
     if g["kw"]:
         rand_take(rnd, g["fw"], names, False)
     fw["alt"] = [g]
-    fw["amode"] = rnd.choice(["if", "if", "if", "glob", "nglob"])
+    # at most ONE def of a program tests the run-time flag: every `if _cond()` looks at the same flag, so two such defs on
+    # one call path are semantically exclusive branches that no static resolver can tell apart (the Ref slices per value
+    # of the flag would then demand more than the property states -- a false alarm of the thorough tier, see DESIGN I.6)
+    modes = ["glob", "nglob"] if _IF_USED[0] else ["if", "if", "if", "glob", "nglob"]
+    fw["amode"] = rnd.choice(modes)
+    if fw["amode"] == "if":
+        _IF_USED[0] = True
     fw["aflag"] = rnd.random() < 0.5
     if rnd.random() < 0.3:
         fw["ahard"] = sorted(rnd.sample(names, 1))
@@ -823,6 +832,7 @@ def rand_chain(rnd, names, depth, classes_below=0, top=False):
 
 
 def rand_program(rnd):
+    _IF_USED[0] = False
     n = rnd.randint(2, 6)
     names = RNAMES[: rnd.randint(3, 6)]
     classes = []
